@@ -234,8 +234,8 @@ func checkC15(c *checkCtx) {
 				if (k == KRetry || k == KHedge) && core < 0 {
 					core = pos
 				}
-				if k == KTimeout {
-					hasTimeout = true
+				if k == KTimeout && core < 0 {
+					hasTimeout = true // a Timeout enclosing the retry/hedge may legitimately win with ErrExceeded
 				}
 			}
 			if core >= 0 && !hasTimeout {
